@@ -238,6 +238,12 @@ func (r *SourceRunner) HandleDeploy(ctx context.Context, msg *workerpb.DeploySou
 }
 
 func (r *SourceRunner) processEvents(ctx context.Context) error {
+	// The watermark ticker belongs to this loop: it is started when splits are
+	// assigned and stopped when the loop ends. (Replacing the ticker in the
+	// SourceRunner raced with the shutdown in Start.)
+	watermarkTicker := time.NewTicker(math.MaxInt64) // never ticks
+	defer func() { watermarkTicker.Stop() }()
+
 	for {
 		select {
 		case <-ctx.Done():
@@ -250,15 +256,15 @@ func (r *SourceRunner) processEvents(ctx context.Context) error {
 			// Splits are assigned once every member of the assembly has been
 			// deployed. Watermarks must not be sent earlier: an operator that is
 			// still loading its state rejects them and the error stops this runner.
-			r.watermarkTicker.Stop()
-			r.watermarkTicker = time.NewTicker(r.watermarkInterval)
+			watermarkTicker.Stop()
+			watermarkTicker = time.NewTicker(r.watermarkInterval)
 			if len(splits) > 0 {
 				if r.sourceChannel == nil {
 					return fmt.Errorf("sourceChannel is nil")
 				}
 				r.sourceChannel.Start(r.ctx)
 			}
-		case <-r.watermarkTicker.C:
+		case <-watermarkTicker.C:
 			r.outputStream <- &workerpb.Event{Event: &workerpb.Event_Watermark{Watermark: &workerpb.Watermark{}}}
 		case barrier := <-r.checkpointBarrier:
 			if err := r.createCheckpoint(barrier.CheckpointId); err != nil {
